@@ -119,6 +119,8 @@ def builtinSig (name : Str) : Option BSig :=
   else if name = lit "gridn" then some ⟨[isNumT, isStrT], none, none⟩
   else if name = lit "dash" ∨ name = lit "ellipse" then some ⟨[], some isNumT, none⟩
   else if name = lit "hsl" then some ⟨[], some isNumT, some .str⟩
+  else if name = lit "poly" then some ⟨[], some (fun t => decide (t = .arr .num)), none⟩
+  else if name = lit "font" then some ⟨[fun t => decide (t = .map .any)], none, none⟩
   else if name = lit "printf" then some ⟨[isAnyT], some (fun _ => true), none⟩
   else if name = lit "sprintf" then some ⟨[isAnyT], some (fun _ => true), some .str⟩
   else if name = lit "repr" then some ⟨[], some (fun _ => true), some .str⟩
@@ -131,6 +133,8 @@ def builtinSig (name : Str) : Option BSig :=
 structure FSig where
   params : List Ty
   ret : Option Ty
+  /-- the element type of the variadic parameter, for a function declared `func f args:T...` -/
+  variadic : Option Ty := none
 
 /-- the signatures of the program's functions -/
 abbrev FEnv := Str → Option FSig
@@ -168,13 +172,16 @@ inductive Typed (Φ : FEnv) (G : Env) : Expr F → Ty → Prop
   | dot (l : Expr F) (key : Str) (s : Ty) : Typed Φ G l (.map s) → Typed Φ G (.dot l key) s
   /-- type assertion `e.(t)` on an any -/
   | assert (t : Ty) (e : Expr F) : t ≠ .any → Reg t = true → Typed Φ G e .any → Typed Φ G (.assert t e) t
+  /-- a call of a variadic user-defined function: any number of arguments of the element type -/
+  | callV (name : Str) (args : List (Expr F)) (sig : FSig) (tv t : Ty) : Φ name = some sig → sig.variadic = some tv →
+      sig.ret = some t → (∀ a ∈ args, Typed Φ G a tv) → Typed Φ G (.call name args) t
   /-- a call of a built-in of the typed fragment that returns a value; `tys` are the static types of the arguments -/
   | builtin (name : Str) (args : List (Expr F)) (sig : BSig) (tys : List Ty) (t : Ty) : builtinSig name = some sig →
       sig.ret = some t → sig.params.length ≤ args.length → (sig.rest = none → args.length = sig.params.length) →
       args.length = tys.length → (∀ (i : Nat) a ta, args[i]? = some a → tys[i]? = some ta → Typed Φ G a ta) →
       (∀ (i : Nat) ta, tys[i]? = some ta → sig.paramAt i ta = true) → Typed Φ G (.call name args) t
   /-- a call of a user-defined function that returns a value: one argument of the declared type per parameter -/
-  | call (name : Str) (args : List (Expr F)) (sig : FSig) (t : Ty) : Φ name = some sig → sig.ret = some t →
+  | call (name : Str) (args : List (Expr F)) (sig : FSig) (t : Ty) : Φ name = some sig → sig.variadic = none → sig.ret = some t →
       args.length = sig.params.length →
       (∀ (i : Nat) a pt, args[i]? = some a → sig.params[i]? = some pt → Typed Φ G a pt) → Typed Φ G (.call name args) t
 
@@ -274,7 +281,9 @@ inductive STyped (Φ : FEnv) (Gg : Env) (ρ : Option Ty) : List SEnv → Stmt F 
   | callTest (Gs : List SEnv) (args : List (Expr F)) : (∀ a ∈ args, Typed Φ (lookupG Gs Gg) a .any) →
       STyped Φ Gg ρ Gs (.callS (.call (lit "test") args)) Gs
   /-- a call of a user-defined function as a statement (a result is dropped) -/
-  | callFn (Gs : List SEnv) (name : Str) (args : List (Expr F)) (sig : FSig) : Φ name = some sig →
+  | callFnV (Gs : List SEnv) (name : Str) (args : List (Expr F)) (sig : FSig) (tv : Ty) : Φ name = some sig →
+      sig.variadic = some tv → (∀ a ∈ args, Typed Φ (lookupG Gs Gg) a tv) → STyped Φ Gg ρ Gs (.callS (.call name args)) Gs
+  | callFn (Gs : List SEnv) (name : Str) (args : List (Expr F)) (sig : FSig) : Φ name = some sig → sig.variadic = none →
       args.length = sig.params.length →
       (∀ (i : Nat) a pt, args[i]? = some a → sig.params[i]? = some pt → Typed Φ (lookupG Gs Gg) a pt) →
       STyped Φ Gg ρ Gs (.callS (.call name args)) Gs
@@ -328,9 +337,14 @@ guarantees about returns (Props/C05: the body always terminates, breaks only ins
 only values) -/
 structure ProgOk (Φ : FEnv) (Gg : Env) (prog : Program F) : Prop where
   defined : ∀ name sig, Φ name = some sig → isBuiltin name = false ∧ ∃ fd, lookupFunc prog.funcs name = some fd
-  typed : ∀ name sig fd, Φ name = some sig → lookupFunc prog.funcs name = some fd →
+  typed : ∀ name sig fd, Φ name = some sig → lookupFunc prog.funcs name = some fd → sig.variadic = none →
     fd.variadic = none ∧ fd.params.length = sig.params.length ∧
     BTyped Φ Gg sig.ret [paramScope fd.params sig.params []] fd.body ∧
+    (∀ t, sig.ret = some t → blockTerms fd.body = true ∧ fnOkB false fd.body = true)
+  /-- a variadic function: its only parameter is the array of all arguments -/
+  typedV : ∀ name sig fd tv, Φ name = some sig → lookupFunc prog.funcs name = some fd → sig.variadic = some tv →
+    (∃ vn, fd.variadic = some vn ∧ vn ≠ underscore ∧ BTyped Φ Gg sig.ret [[(vn, Ty.arr tv)]] fd.body) ∧
+    fd.params = [] ∧ Reg tv = true ∧
     (∀ t, sig.ret = some t → blockTerms fd.body = true ∧ fnOkB false fd.body = true)
 
 /-- the built-in globals err and errmsg have their documented types, if the program mentions them -/
